@@ -159,11 +159,9 @@ Definition leave_here (c : client) (e : event) (rec_epoch : N) : client * rk :=
   let k := kc c in
   if existsb (N.eqb (100000 + e_id e)) (k_seen k) then fail_unprocessable c e rec_epoch else
   let k0 := with_seen (with_props k (k_props k ++ [e_id e])) ((100000 + e_id e) :: k_seen k) in
-  if is_admin c && (match k_pending k with Some _ => true | None => false end) then
-    fail_unprocessable (set_core c k0) e rec_epoch
-  else
-  let k1 := if is_admin c then with_pending k0 (Some (1000 + e_id e * 8 + me c, 0, [e_author e])) else k0 in
-  (put_dedup (set_core c k1) (e_id e) PS_PROCESSED (Some (k_epoch k)) None, if is_admin c then RAuto else RPending).
+  let auto := is_admin c && (match k_pending k with Some _ => false | None => true end) in
+  let k1 := if auto then with_pending k0 (Some (1000 + e_id e * 8 + me c, 0, [e_author e])) else k0 in
+  (put_dedup (set_core c k1) (e_id e) PS_PROCESSED (Some (k_epoch k)) None, if auto then RAuto else RPending).
 
 Definition commit_here (c : client) (e : event) (rec_epoch : N) : client * rk :=
   let k := kc c in
@@ -332,9 +330,7 @@ Lemma Inv_leave_here c e r : Inv c -> Inv (fst (leave_here c e r)).
 Proof.
   intros H. unfold leave_here.
   destruct (existsb (N.eqb (100000 + e_id e)) (k_seen (kc c))); [exact H|].
-  destruct (is_admin c && _).
-  - split; [exact (proj1 H)|exact (proj2 H)].
-  - cbn [fst]. split; [|exact (proj2 H)]. destruct (is_admin c); exact (proj1 H).
+  cbv zeta. cbn [fst]. split; [|exact (proj2 H)]. destruct (is_admin c && _); exact (proj1 H).
 Qed.
 
 Lemma Inv_commit_here c e r : Inv c -> Inv (fst (commit_here c e r)).
@@ -474,10 +470,9 @@ Qed.
 
 Lemma here_refused_frame c e r :
   refused (snd (here c e r)) = true ->
-  ~ (e_kind e = 2 /\ is_admin c = true /\ k_pending (kc c) <> None) ->
   proj (fst (here c e r)) = proj c.
 Proof.
-  unfold here. intros Href Hlv.
+  unfold here. intros Href.
   destruct (e_author e =? me c).
   - revert Href. unfold own_here.
     destruct (if e_kind e =? 0 then k_pending (kc c) else None) as [cm|]; [rewrite apply_commit_rk; discriminate|].
@@ -489,10 +484,7 @@ Proof.
     + revert Href. unfold app_here. destruct (negb _ || existsb (N.eqb (e_msg e)) (k_seen (kc c)) || (e_bad e =? 7)); [reflexivity|discriminate].
     + destruct (N.eqb_spec (e_kind e) 2) as [K2|K2].
       * revert Href. unfold leave_here. destruct (existsb (N.eqb (100000 + e_id e)) (k_seen (kc c))); [reflexivity|].
-        destruct (is_admin c) eqn:Ea; cbn [andb].
-        -- destruct (k_pending (kc c)) as [p|] eqn:Ep; [|discriminate].
-           exfalso. apply Hlv. repeat split; [exact K2|discriminate].
-        -- discriminate.
+        cbv zeta. destruct (is_admin c && _); discriminate.
       * revert Href. unfold commit_here. destruct (negb (forallb _ (e_refs e))); [reflexivity|].
         destruct (negb (e_auth e) || (e_bad e =? 8)); [destruct (negb (e_auth e)); reflexivity|]. rewrite apply_commit_rk. discriminate.
 Qed.
@@ -500,10 +492,9 @@ Qed.
 Lemma refusal_frame : forall c e,
   refused (snd (deliver c e)) = true ->
   ~ (rollbacks (fst (deliver c e)) <> rollbacks c) ->
-  ~ (e_kind e = 2 /\ is_admin c = true /\ k_pending (kc c) <> None) ->
   proj (fst (deliver c e)) = proj c.
 Proof.
-  intros c e. unfold deliver. rewrite process_unfold. intros Href Hrb Hlv. revert Href Hrb.
+  intros c e. unfold deliver. rewrite process_unfold. intros Href Hrb. revert Href Hrb.
   destruct (blockedb c e); [reflexivity|].
   destruct ((e_kind e =? 3) && (e_bad e <? 2)); [reflexivity|].
   destruct ((e_kind e =? 3) && (e_bad e =? 2)); [reflexivity|].
@@ -517,9 +508,7 @@ Proof.
       pose proof (process_rb 1 (rollback (ens c) (e_epoch e) s) e) as H.
       assert (rollbacks (rollback (ens c) (e_epoch e) s) = rollbacks c + 1) as E by reflexivity. lia.
     + intros Href _. rewrite (late_refused_frame _ _ _ Href). apply proj_ens.
-  - intros Href _. rewrite (here_refused_frame _ _ _ Href); [apply proj_ens|].
-    intros (K2 & Ha & Hp). apply Hlv. repeat split; [exact K2|exact Ha|].
-    cbn [ens set_core kc] in Hp. rewrite es_pending in Hp. exact Hp.
+  - intros Href _. rewrite (here_refused_frame _ _ _ Href). apply proj_ens.
 Qed.
 
 Lemma deliver_total : forall c e, exists c' r, deliver c e = (c', r).
@@ -546,9 +535,7 @@ Lemma rollback_then_refused_witness : exists c e,
   rollbacks (fst (deliver c e)) <> rollbacks c /\ refused (snd (deliver c e)) = true /\ proj (fst (deliver c e)) <> proj c.
 Proof. exists (fst (deliver w_c0 w_A)), w_Bbad. vm_compute. repeat split; discriminate. Qed.
 
-Lemma leave_to_pending_admin_witness : exists c e,
-  (e_kind e = 2 /\ is_admin c = true /\ k_pending (kc c) <> None) /\ refused (snd (deliver c e)) = true /\ proj (fst (deliver c e)) <> proj c.
-Proof. exists (committed (init_client 1 true 5) w_own), w_leave. vm_compute. repeat split; discriminate. Qed.
+(* (removed: fixed in the code, see known_findings fixed entry) *)
 
 Lemma late_message_refuted : exists c msg worse better,
   fork_ready c /\ e_state msg = k_cur (kc c) /\
@@ -677,8 +664,7 @@ Proof.
          eexists; split; [apply dget_aset_same|split; [reflexivity|apply aset_filter_one; exact Hnd]]
         |]);
        (destruct (e_kind e =? 2);
-        [unfold leave_here; destruct (existsb _ _); [discriminate|]; destruct (is_admin (ens c) && _); [discriminate|];
-         destruct (is_admin (ens c)); discriminate|]);
+        [unfold leave_here; destruct (existsb _ _); [discriminate|]; destruct (is_admin (ens c) && _); discriminate|]);
        unfold commit_here; (destruct (negb (forallb _ (e_refs e))); [discriminate|]);
        (destruct (negb (e_auth e) || (e_bad e =? 8)); [destruct (negb (e_auth e)); discriminate|]); rewrite apply_commit_rk; discriminate.
   all: destruct (wrong_epoch (kc (ens c)) e); [|exact Hhere].
@@ -1043,10 +1029,10 @@ Lemma settled_leave_here c e r :
 Proof.
   intros K3 Hs Hw Hme K1 K2. unfold leave_here.
   destruct (existsb (N.eqb (100000 + e_id e)) (k_seen (kc c))); [apply settled_rf|].
-  destruct (is_admin c && _); [apply settled_rf|]. cbn [fst].
-  set (k1 := if is_admin c then with_pending _ _ else _).
+  cbv zeta. cbn [fst].
+  set (k1 := if is_admin c && _ then with_pending _ _ else _).
   assert (k_epoch k1 = k_epoch (kc c) /\ k_secrets k1 = k_secrets (kc c) /\ k_seen k1 = (100000 + e_id e) :: k_seen (kc c))
-    as (Fep & Fsec & Fseen) by (unfold k1; destruct (is_admin c); repeat split; reflexivity).
+    as (Fep & Fsec & Fseen) by (unfold k1; destruct (is_admin c && _); repeat split; reflexivity).
   set (c' := put_dedup (set_core c k1) _ _ _ _).
   apply settled_via_tail.
   - apply blockedb_put; discriminate.
@@ -1727,7 +1713,7 @@ Proof.
       rewrite (proj1 (proj2 (upd_last_fields _ _ _))). reflexivity.
     + destruct (e_kind e =? 2).
       * unfold leave_here. destruct (existsb (N.eqb (100000 + e_id e)) (k_seen (kc c))); [exact H|].
-        destruct (is_admin c && _); [exact H|]. cbn [fst]. destruct (is_admin c); exact H.
+        destruct (is_admin c && _); exact H.
       * unfold commit_here. destruct (negb (forallb _ (e_refs e))); [exact H|].
         destruct (negb (e_auth e) || (e_bad e =? 8)); [exact H|apply qwf_apply_commit; exact H].
 Qed.
